@@ -517,7 +517,7 @@ fn measure(b: &Bench, index: &HnswIndex) -> Result<(f64, f64), String> {
         scored.sort_by(|a, c| a.1.partial_cmp(&c.1).unwrap().then(a.0.cmp(&c.0)));
         scored.truncate(k);
         let kth = scored.last().map(|x| x.1).unwrap_or(0.0);
-        let thr = kth * 1.001 + 1e-6;
+        let thr = kth + kth.abs() * 0.001 + 1e-6;
         let truth: BTreeSet<u64> = scored.iter().map(|x| x.0).collect();
         let hits = res.iter().take(k).filter(|(id, _)| truth.contains(id) || b.data.get(id).is_some_and(|v| distance(b.metric, q, v) <= thr)).count();
         let r = hits as f64 / k as f64;
@@ -617,6 +617,30 @@ fn run_workload(c: &RecallCase) -> Result<Vec<(String, f64, f64, f64, f64)>, Str
                 return Err(format!("reload changed retrieval quality: before {before:.4}, after {a:.4}"));
             }
         }
+        7 => {
+            // The documented fresh Cosine workload, presented through an equivalent metric: on
+            // unit vectors the inner-product distance is the cosine distance minus one, so the
+            // neighbour order - and with it everything the graph construction and the search
+            // compare - is the same. No floor is documented for InnerProduct itself; this is the
+            // Cosine floor minus a fixed margin of 0.10 (derived relation, stated in DESIGN C12).
+            let cfg = default_cfg(DistanceMetric::InnerProduct, 24);
+            let index = HnswIndex::new("recall".into(), Some(cfg));
+            let mut rng = SplitMix64(7 + s);
+            let unit = |v: Vec<f32>| -> Vec<f32> {
+                let n = v.iter().map(|x| x * x).sum::<f32>().sqrt().max(1e-6);
+                v.iter().map(|x| anda_db_hnsw::half::bf16::from_f32(x / n).to_f32()).collect()
+            };
+            let mut data = BTreeMap::new();
+            for id in 1..=800u64 {
+                let v = unit(rng.next_vector(24));
+                index.insert_f32(id, v.clone(), id).map_err(|e| e.to_string())?;
+                data.insert(id, v);
+            }
+            let queries = (0..40).map(|_| unit(rng.next_vector(24))).collect();
+            let b = Bench { index, data, queries, metric: DistanceMetric::InnerProduct };
+            let (a, m) = measure(&b, &b.index)?;
+            out.push(("inner_product_on_unit_vectors_of_the_cosine_workload".into(), a, m, 0.95 - 0.10, 0.60 - 0.10));
+        }
         _ => {
             // interrupted flush + re-index of the unflushed documents
             let cfg = default_cfg(DistanceMetric::Euclidean, 16);
@@ -696,13 +720,13 @@ pub fn run(r: &mut Runner) {
     // seeds is decided (and replayable) inside the case
     let seeds: u64 = r.tier.pick(6, 40);
     let mut cases = vec![];
-    for w in 0..7u8 {
+    for w in 0..8u8 {
         let n = if w == 6 { seeds.max(7) } else { seeds };
         cases.push(RecallSet { workload: w, seeds: (0..n).map(|s| s * 1000 + r.seed % 1000).collect() });
     }
     r.sub_enum(
         "recall_workloads",
-        "the documented deterministic workloads of the crate's recall test (fresh Euclidean n=1000 d=32; fresh Cosine n=800 d=24; after deleting a fifth; heavy deletions 50%/80% on the sparse M=6 configuration with reconnect_on_delete; delete/re-insert churn; persistence round trip) plus 'committed flush, more inserts/removes/re-inserts, flush interrupted at one of 7 cut points, load, re-index the unflushed documents', each over several vector seeds (3 quick / 24 thorough; 7 for the cut points) with seeded layers. Every seed must stay at or above the documented worst-case floor and the mean over the seeds at or above the documented average floor (interrupted flush: documented reload floor 0.95 minus the fixed margin 0.05). Every search of every workload also passes the soundness oracle. Non-trivial = always (each workload builds different indexes per seed)",
+        "the documented deterministic workloads of the crate's recall test (fresh Euclidean n=1000 d=32; fresh Cosine n=800 d=24; after deleting a fifth; heavy deletions 50%/80% on the sparse M=6 configuration with reconnect_on_delete; delete/re-insert churn; persistence round trip) plus 'committed flush, more inserts/removes/re-inserts, flush interrupted at one of 7 cut points, load, re-index the unflushed documents' and 'the fresh Cosine workload on unit vectors under InnerProduct (same neighbour order; Cosine floors minus the fixed margin 0.10)', each over several vector seeds (3 quick / 24 thorough; 7 for the cut points) with seeded layers. Every seed must stay at or above the documented worst-case floor and the mean over the seeds at or above the documented average floor (interrupted flush: documented reload floor 0.95 minus the fixed margin 0.05). Every search of every workload also passes the soundness oracle. Non-trivial = always (each workload builds different indexes per seed)",
         false,
         cases,
         |c, ctx| {
